@@ -3,6 +3,7 @@ Also provides the shared census runner used by C02 (fail-safe scope) and C18 (ke
 import json, os
 import re
 from ..core import *
+from ..inline import inlined_body
 from .. import census
 
 EXPLANATION = ("Census over everything reachable (over-approximate call graph incl. trait objects and callbacks through std/byteorder/bincode/brotli) from the "
@@ -84,8 +85,6 @@ def moved_into_helper(prog, body, site, table, anywhere):
     if body.kind == 'Closure' or body.impl_trait or body.vis == 'pub' or body.arg_count == 0:
         return None
     names = {body.lname(p): p for p in range(1, body.arg_count + 1)}
-    if not any(re.search(r'(?<![A-Za-z0-9_.])%s(?![A-Za-z0-9_])' % re.escape(n), site.desc) for n in names):
-        return None
     sites = []
     for b2 in prog.crates[body.pkg].bodies:
         for blk in b2.calls():
@@ -100,10 +99,23 @@ def moved_into_helper(prog, body, site, table, anywhere):
         for n, pidx in names.items():
             if pidx - 1 >= len(blk.term.args):
                 return None
-            ar = census.describe(b2, blk.term.args[pidx - 1])
+            aop = blk.term.args[pidx - 1]
+            ar = None
+            for _ in range(5):   # look through reborrows and accessors that hand out the same bytes (`&mut vec` -> deref_mut -> `&mut *slice`)
+                ae = deref_expr(b2, expr_of(b2, aop))
+                if ae[0] == 'call' and ae[2].cmethod in ('deref_mut', 'deref', 'as_mut_slice', 'as_slice', 'as_mut', 'as_ref', 'borrow_mut', 'borrow') and ae[2].args:
+                    aop = ae[2].args[0]
+                    continue
+                if ae[0] in ('place', 'ref'):
+                    ar = b2.lname(ae[1][0]) if not [p for p in ae[1][1] if p[0] != 'deref'] else None
+                break
+            if ar is None:
+                ar = census.describe(b2, aop)
             ar = re.sub(r'^&(mut )?', '', ar)
             desc = re.sub(r'(?<![A-Za-z0-9_.])%s(?![A-Za-z0-9_])' % re.escape(n), lambda m: ar, desc)
         base = '%s|%s' % (b2.nkey, desc)
+        if os.environ.get('MLA_DEBUG_MOVED'):
+            print('moved?', base)
         ent = anywhere.get(base) or next((e for k2, e in table.items() if k2.rsplit('#', 1)[0] == base), None)
         if ent is None:
             return None
@@ -149,6 +161,24 @@ def run_census(prog, rep, which, rule):
             if same:
                 n_tab += 1
                 rep.ob(rule, True, key, 'reviewed (same operation on the same inputs as a reviewed site of this function): ' + same[0]['reason'], s.loc())
+                continue
+            # the operand is now computed by a private helper (extract-function on the producer side): look the site up as it reads once the
+            # helper is spliced back into this function
+            viainl = None
+            try:
+                inl = inlined_body(prog, body)
+                if getattr(inl, 'inlined', 0):
+                    for s2 in census.enumerate_sites(prog, inl):
+                        if s2.bb == s.bb and s2.kind == s.kind:
+                            base2 = s2.key.rsplit('#', 1)[0]
+                            viainl = anywhere.get(base2) or next((e2 for k2, e2 in table.items() if k2.rsplit('#', 1)[0] == base2), None)
+                            if viainl is None and census.discharge(prog, inl, s2):
+                                viainl = {'reason': 'discharged once the helper is inlined: ' + census.discharge(prog, inl, s2)}
+            except Exception:
+                viainl = None
+            if viainl is not None:
+                n_tab += 1
+                rep.ob(rule, True, key, 'reviewed (operand produced by a private helper; same site once inlined): ' + viainl['reason'], s.loc())
                 continue
             moved = moved_into_helper(prog, body, s, table, anywhere)
             if moved:
